@@ -74,13 +74,24 @@ theorem C01_every_path_once_reachable {σ σ' : State S} (hr : Reachable σ) (v 
     invariant; what remains assumed is `Sem` — the per-operation value laws (C02). -/
 theorem C01_backward_pathsum_reachable [AddLaws S] {σ : State S} (hr : Reachable σ) (sem : Sem σ.graph)
     (ℓ j : Nat) (v : String) (h : Handle) (seed : Option (Tensor S)) (hg : σ.get v = .ok h)
-    (hk : h.keep = sem.κ h.node)
+    (hk : σ.graph.kids h.node = [] ∨ h.keep = sem.κ h.node)
     (hgr : ∀ g, σ.estate.grad ℓ = some g → Shaped (sem.dimsOf ℓ) g)
     (x : Tensor S) (hseed : seedOrOnes seed h.dims = .ok x) (hxs : Shaped (sem.dimsOf h.node) x)
     (e : EState S) (hok : Corgi.backward σ.graph (σ.nodes.size + 1) h.node h.dims h.keep seed σ.estate = .ok e) :
     gradVal ℓ j e = gradVal ℓ j σ.estate + P sem ℓ j h.node x := by
   have hv := get_valid hr.good.roots hg
-  rw [hk] at hok
+  have hok : Corgi.backward σ.graph (σ.nodes.size + 1) h.node h.dims (sem.κ h.node) seed σ.estate = .ok e := by
+    rcases hk with hleaf | hk
+    · rw [← hok]
+      simp only [Corgi.backward]
+      cases σ.estate.delta h.node with
+      | some d => exact process_leaf_keep _ _ _ _ _ _ hleaf
+      | none =>
+        simp only [bind, Except.bind]
+        cases seedOrOnes seed h.dims with
+        | error e => rfl
+        | ok x => exact process_leaf_keep _ _ _ _ _ _ hleaf
+    · rw [← hk]; exact hok
   exact (backward_pathsum sem ℓ j (graph_wf σ hr.good.heap) (graph_lawful σ hr.good.heap) (σ.nodes.size + 1) h.node
     (by have := hv.1; omega) h.dims seed σ.estate e (estate_clean σ hr.good.heap) rfl hgr x hseed hxs hok).1
 
